@@ -1,6 +1,7 @@
 /-
 C19 — diagnostics are local: unrelated text only shifts them (lexer/position half).
 -/
+import NormModel.Proofs.LexShift
 import NormModel.Properties.C09
 namespace Norm.C19
 open Norm Spec
@@ -83,6 +84,87 @@ theorem token_shift (u : Uni) (pre src : List Char) (h : pre = [] ∨ pre.getLas
   rw [hs, visualPos_prefix pre src t.start h, ← h1] at h2
   simp only [Prod.mk.injEq] at h2
   exact h2
+
+
+/-! ### The lexer itself is local -/
+
+/-- more fuel changes nothing once a run succeeds -/
+theorem lexItems_fuel_mono (u : Uni) (fuel n : Nat) (s : LexSt) (r : List Item × LexSt)
+    (h : lexItems u fuel s = .ok r) : lexItems u (fuel + n) s = .ok r := by
+  induction fuel generalizing s r with
+  | zero => simp [lexItems] at h
+  | succ fuel ih =>
+    rw [show fuel + 1 + n = (fuel + n) + 1 by omega]
+    unfold lexItems at h ⊢
+    simp only at h ⊢
+    cases htry : trySubLexers u (skipSplices (s.rest.length + 1) s) with
+    | error e => rw [htry] at h; cases h
+    | ok o =>
+      rw [htry] at h
+      cases o with
+      | some p =>
+        obtain ⟨s1, t⟩ := p
+        simp only at h ⊢
+        cases hrec : lexItems u fuel s1 with
+        | error e => rw [hrec] at h; cases h
+        | ok q =>
+          rw [hrec] at h
+          rw [ih s1 q hrec]
+          exact h
+      | none =>
+        simp only at h ⊢
+        cases hr : (skipSplices (s.rest.length + 1) s).rest with
+        | nil => rw [hr] at h; exact h
+        | cons c tl =>
+          rw [hr] at h
+          simp only at h ⊢
+          cases hrec : lexItems u fuel (badLexeme (skipSplices (s.rest.length + 1) s) c) with
+          | error e => rw [hrec] at h; cases h
+          | ok q =>
+            rw [hrec] at h
+            rw [ih _ q hrec]
+            exact h
+
+/-- **The lexer is blind to what precedes it.** Standing at column 1 in front of the text `src`,
+after `dl` lines and `dp` characters of other text (whatever diagnostics `d0` that text produced),
+the lexer produces exactly the items it produces for `src` alone — same kinds, same values, same
+columns — moved down by `dl` lines (offsets by `dp`), and the same diagnostics moved likewise. -/
+theorem lex_shift (u : Uni) (src : List Char) (d0 : List Diag) (dl dp fuel : Nat) :
+    lexItems u fuel { rest := src, pos := dp, line := 1 + dl, col := 1, diags := d0 } =
+      (lexItems u fuel { rest := src }).map (fun r => (r.1.map (shItem dl dp), shSt d0 dl dp r.2)) := by
+  have := lexItems_sh d0 dl dp u fuel { rest := src }
+  have e : shSt d0 dl dp { rest := src } = { rest := src, pos := dp, line := 1 + dl, col := 1, diags := d0 } := by
+    simp [shSt]
+  rw [e] at this
+  exact this
+
+/-- In terms of `lex`: if `src` alone lexes to `r`, then from the standing point after a prefix
+`pre` of complete lines the rest of the run is `r` moved down by the lines of `pre`. (That the
+run over `pre ++ src` reaches this standing point is the case whenever `pre` ends with a newline
+that is a token of its own; by C09/C10 the state there has exactly this position.) -/
+theorem lex_after_prefix (u : Uni) (pre src : List Char) (d0 : List Diag) (r : LexResult)
+    (h : lex u src = .ok r) (n : Nat) :
+    ∃ sf, lexItems u (src.length + 1 + n)
+        { rest := src, pos := pre.length, line := 1 + nlCount pre, col := 1, diags := d0 } =
+      .ok (r.items.map (shItem (nlCount pre) pre.length), sf) ∧
+      sf.diags = d0 ++ r.diags.map (shDiag (nlCount pre)) := by
+  unfold lex at h
+  cases hrun : lexItems u (src.length + 1) { rest := src } with
+  | error e => rw [hrun] at h; cases h
+  | ok q =>
+    rw [hrun] at h
+    simp only [Except.ok.injEq] at h
+    subst h
+    have hm := lexItems_fuel_mono u (src.length + 1) n { rest := src } q hrun
+    have := lex_shift u src d0 (nlCount pre) pre.length (src.length + 1 + n)
+    rw [hm] at this
+    exact ⟨shSt d0 (nlCount pre) pre.length q.2, this, rfl⟩
+
+/-- Non-vacuity: `int\tx;` lexed alone and lexed from the standing point after two lines. -/
+example :
+    (lexItems {} 8 { rest := "int\tx;".toList, pos := 16, line := 3, col := 1 }).toOption.map
+      (fun r => r.1.filterMap (fun it => match it with | .tok t => some (t.type, t.line, t.col, t.start) | _ => none))
+    = some [("INT", 3, 1, 16), ("TAB", 3, 4, 19), ("IDENTIFIER", 3, 5, 20), ("SEMI_COLON", 3, 6, 21)] := by decide +kernel
 
 /-- Non-vacuity: an 11-line header in front of a file moves every token down by 11. -/
 example : nlCount "/* a */\n/* b */\n".toList = 2 ∧
